@@ -28,7 +28,7 @@ deriving Repr, DecidableEq
 inductive PC where
   | idle
   | start (op : Op)                         -- atomic.LoadUint32(&c.done) == 0 ?
-  | panicked (op : Op)
+  | panicked (op : Op) (first : Bool)
   -- doSlow
   | dLock (op : Op)                         -- ▸chan.doSlow.enter; mu.Lock()
   | dRead (op : Op)                         -- ▸chan.doSlow.locked; c.done == 0 ?
@@ -93,29 +93,29 @@ def closeStep (s : State) (t : Tid) : State :=
   match s.ch with
   | .fresh c =>
     let s1 := { s with closes := upd s.closes c (s.closes c + 1) }
-    if s.closes c = 0 then s1.setPc t (.doneClose false) else s1.setPc t (.panicked .close)
-  | .sentinel => { s with sentCloses := s.sentCloses + 1 }.setPc t (.panicked .close)
-  | .none => s.setPc t (.panicked .close)
+    if s.closes c = 0 then s1.setPc t (.doneClose false) else s1.setPc t (.panicked .close false)
+  | .sentinel => { s with sentCloses := s.sentCloses + 1 }.setPc t (.panicked .close false)
+  | .none => s.setPc t (.panicked .close false)
 
 /-- the send of `Send` (blocking) -/
 def sendStep (s : State) (t : Tid) (first : Bool) : Option State :=
   match s.ch with
   | .fresh c =>
-    if 0 < s.closes c then some (s.setPc t (.panicked .send))
+    if 0 < s.closes c then some (s.setPc t (.panicked .send first))
     else if s.buf c < s.cap c + s.rwait c then some ({ s with buf := upd s.buf c (s.buf c + 1) }.setPc t (.doneSend first))
     else none
-  | .sentinel => some (s.setPc t (.panicked .send))
+  | .sentinel => some (s.setPc t (.panicked .send first))
   | .none => none
 
 /-- the non-blocking send of `Full` -/
 def fullStep (s : State) (t : Tid) (first : Bool) : Option State :=
   match s.ch with
   | .fresh c =>
-    if 0 < s.closes c then some (s.setPc t (.panicked .full))
+    if 0 < s.closes c then some (s.setPc t (.panicked .full first))
     else if s.buf c < s.cap c + s.rwait c then
       some ({ s with buf := upd s.buf c (s.buf c + 1) }.setPc t (.cFullRecv first (.fresh c)))
     else some (s.setPc t (.doneFull first true))
-  | .sentinel => some (s.setPc t (.panicked .full))
+  | .sentinel => some (s.setPc t (.panicked .full first))
   | .none => some (s.setPc t (.doneFull first true))
 
 /-- first attempt of a receive on the current channel: take an item, or see it closed, or park -/
@@ -153,7 +153,7 @@ def fullRecv (s : State) (t : Tid) (c : Ch) (p : PC) : Option State :=
 def step (s : State) (t : Tid) : Option State :=
   match s.pc t with
   | .idle => none
-  | .panicked _ => none
+  | .panicked _ _ => none
   | .doneClose _ => none
   | .doneMake _ => none
   | .doneGet _ _ => none
@@ -208,7 +208,7 @@ def Op.isSend : Op → Bool
 def holds : PC → Bool
   | .idle => false
   | .start _ => false
-  | .panicked _ => false
+  | .panicked _ _ => false
   | .dLock _ => false
   | .dRead _ => true
   | .dF _ => true
@@ -232,7 +232,7 @@ def holds : PC → Bool
 def ranF : PC → Bool
   | .idle => false
   | .start _ => false
-  | .panicked _ => false
+  | .panicked _ first => first
   | .dLock _ => false
   | .dRead _ => false
   | .dF _ => false
@@ -256,7 +256,7 @@ def ranF : PC → Bool
 def pastStore : PC → Bool
   | .idle => false
   | .start _ => false
-  | .panicked _ => false
+  | .panicked _ first => first
   | .dLock _ => false
   | .dRead _ => false
   | .dF _ => false
@@ -280,7 +280,7 @@ def pastStore : PC → Bool
 def postDo : PC → Bool
   | .idle => false
   | .start _ => false
-  | .panicked _ => false
+  | .panicked _ _ => true
   | .dLock _ => false
   | .dRead _ => false
   | .dF _ => false
@@ -304,7 +304,7 @@ def postDo : PC → Bool
 def retDo : PC → Bool
   | .idle => false
   | .start _ => false
-  | .panicked _ => false
+  | .panicked _ _ => true
   | .dLock _ => false
   | .dRead _ => false
   | .dF _ => false
@@ -328,7 +328,7 @@ def retDo : PC → Bool
 def closer : PC → Bool
   | .idle => false
   | .start op => Op.isClose op
-  | .panicked op => Op.isClose op
+  | .panicked op _ => Op.isClose op
   | .dLock op => Op.isClose op
   | .dRead op => Op.isClose op
   | .dF op => Op.isClose op
@@ -352,7 +352,7 @@ def closer : PC → Bool
 def sender : PC → Bool
   | .idle => false
   | .start op => Op.isSend op
-  | .panicked op => Op.isSend op
+  | .panicked op _ => Op.isSend op
   | .dLock op => Op.isSend op
   | .dRead op => Op.isSend op
   | .dF op => Op.isSend op
@@ -376,7 +376,7 @@ def sender : PC → Bool
 def getOf : PC → Option Ch
   | .idle => none
   | .start _ => none
-  | .panicked _ => none
+  | .panicked _ _ => none
   | .dLock _ => none
   | .dRead _ => none
   | .dF _ => none
@@ -400,7 +400,7 @@ def getOf : PC → Option Ch
 def waitsOn : PC → Option Ch
   | .idle => none
   | .start _ => none
-  | .panicked _ => none
+  | .panicked _ _ => none
   | .dLock _ => none
   | .dRead _ => none
   | .dF _ => none
@@ -424,7 +424,7 @@ def waitsOn : PC → Option Ch
 def isPanic : PC → Bool
   | .idle => false
   | .start _ => false
-  | .panicked _ => true
+  | .panicked _ _ => true
   | .dLock _ => false
   | .dRead _ => false
   | .dF _ => false
@@ -448,7 +448,7 @@ def isPanic : PC → Bool
 def closedBy : PC → Bool
   | .idle => false
   | .start _ => false
-  | .panicked _ => false
+  | .panicked _ _ => false
   | .dLock _ => false
   | .dRead _ => false
   | .dF _ => false
@@ -472,7 +472,7 @@ def closedBy : PC → Bool
 def closeDone : PC → Bool
   | .idle => false
   | .start _ => false
-  | .panicked _ => false
+  | .panicked _ _ => false
   | .dLock _ => false
   | .dRead _ => false
   | .dF _ => false
@@ -496,7 +496,7 @@ def closeDone : PC → Bool
 def inF : PC → Bool
   | .idle => false
   | .start _ => false
-  | .panicked _ => false
+  | .panicked _ _ => false
   | .dLock _ => false
   | .dRead _ => false
   | .dF _ => true
@@ -520,7 +520,7 @@ def inF : PC → Bool
 def isDStore : PC → Bool
   | .idle => false
   | .start _ => false
-  | .panicked _ => false
+  | .panicked _ _ => false
   | .dLock _ => false
   | .dRead _ => false
   | .dF _ => false
@@ -544,7 +544,7 @@ def isDStore : PC → Bool
 def closeFirst : PC → Bool
   | .idle => false
   | .start _ => false
-  | .panicked _ => false
+  | .panicked _ _ => false
   | .dLock _ => false
   | .dRead _ => false
   | .dF _ => false
@@ -568,7 +568,7 @@ def closeFirst : PC → Bool
 def closeSecond : PC → Bool
   | .idle => false
   | .start _ => false
-  | .panicked _ => false
+  | .panicked _ _ => false
   | .dLock _ => false
   | .dRead _ => false
   | .dF _ => false
@@ -592,7 +592,7 @@ def closeSecond : PC → Bool
 def readsCh : PC → Bool
   | .idle => false
   | .start _ => false
-  | .panicked _ => false
+  | .panicked _ _ => false
   | .dLock _ => false
   | .dRead _ => false
   | .dF _ => false
@@ -616,7 +616,7 @@ def readsCh : PC → Bool
 def writesCh : PC → Bool
   | .idle => false
   | .start _ => false
-  | .panicked _ => false
+  | .panicked _ _ => false
   | .dLock _ => false
   | .dRead _ => false
   | .dF _ => true
@@ -640,7 +640,7 @@ def writesCh : PC → Bool
 def readsDonePlain : PC → Bool
   | .idle => false
   | .start _ => false
-  | .panicked _ => false
+  | .panicked _ _ => false
   | .dLock _ => false
   | .dRead _ => true
   | .dF _ => false
@@ -664,7 +664,7 @@ def readsDonePlain : PC → Bool
 def storesDone : PC → Bool
   | .idle => false
   | .start _ => false
-  | .panicked _ => false
+  | .panicked _ _ => false
   | .dLock _ => false
   | .dRead _ => false
   | .dF _ => false
